@@ -57,6 +57,32 @@ func c08Setup() error {
 	if len(c08Files) < 5 {
 		return fmt.Errorf("c08: only %d usable corpus files", len(c08Files))
 	}
+	// progressive files from the raw muxer, built once from fixed seeds: 1-3 tracks, seeded chunking and interleaving,
+	// stco/co64, uniform stsz, empty samples, mdat before/after moov, 64-bit mdat header
+	for seed := uint64(1); seed <= 40; seed++ {
+		spec, err := work.DrawMuxSpec(sim.NewTape(seed))
+		if err != nil {
+			continue
+		}
+		img, err := work.Mux(spec)
+		if err != nil {
+			continue
+		}
+		top, err := ref.Walk(img, 0, int64(len(img)), true)
+		if err != nil {
+			continue
+		}
+		f, err := decodeMem(img)
+		if err != nil {
+			return fmt.Errorf("c08: raw-muxer file (seed %d) does not decode: %v", seed, err)
+		}
+		cf := &work.CorpusFile{Path: fmt.Sprintf("mux-%d", seed), Name: fmt.Sprintf("mux-%d.mp4", seed), Data: img, Top: top, HasMoov: true, HasMdat: true, Progressive: true}
+		e := &c08File{cf: cf, mem: f}
+		if mi, err := ref.ParseMoov(img, ref.FindTop(top, "moov")); err == nil {
+			e.movie = mi
+		}
+		c08Files = append(c08Files, e)
+	}
 	return nil
 }
 
